@@ -82,6 +82,11 @@ func (ex *Exec) renderOpt(o *Obligation, extra []*Term, ground bool, positive bo
 	} else {
 		asserts = append(asserts, ex.p.Not(o.Goal))
 	}
+	for _, zn := range []string{"ZeroHash", "ZeroAddr"} {
+		if c, ok := ex.p.consts[zn]; ok {
+			ex.inputs["const:"+zn] = c
+		}
+	}
 	var model []*Term
 	o.ModelKeys = nil
 	for _, k := range sortedInputNames(ex.inputs) {
